@@ -8,7 +8,6 @@ import numpy as np
 from c10 import omat, ophi
 from common import R, fl
 
-from common import wiring_pre_build as pre_build  # noqa: E402,F401
 
 LEAN_MODULES = ["PyomaVerif.Props.C11", "PyomaVerif.Mutants.C11", "PyomaVerif.Props.WiringMpe", "PyomaVerif.Props.C11Plscf", "PyomaVerif.Props.C11Stored", "PyomaVerif.Props.WiringClass", "PyomaVerif.Props.WiringCalls", "PyomaVerif.Props.C11Py", "PyomaVerif.Mutants.C11Py"]
 THEOREMS = [
